@@ -57,10 +57,10 @@ def oracle(ctx, info):
     got = info.rankings()
     scores = [info.ref.score(r) for r in got]
     best = scores[0]
-    if max(scores) - min(scores) > EPS * max(1.0, abs(best)):
+    if max(scores) - min(scores) > EPS:
         ctx.violation('returned-rankings-of-different-score', info.case(), list(zip(got, scores)), None)
     worst = max(scores)
-    tol = EPS * max(1.0, abs(worst))
+    tol = EPS
     if not info.cfg.starters:
         for r in info.ds:
             u = refmodel.canon(refmodel.unify(r, info.universe))
